@@ -828,9 +828,6 @@ def gen_ops2(rng):
     return ops
 
 
-KNOWN_SIG_JSON = "json-roundtrip-drained-matrix-loses-shape"
-
-
 def plain(ops):
     """the same operations without object reuse (every Current built afresh from its expression)"""
     out = []
@@ -863,9 +860,8 @@ def make_cases(ops, mode=None, shrink_ok=False):
                                ("reuse", any("use" in split(o)[1] for o in po))) if on]
         case["kind"] = "seq%s/%s" % ("".join("+" + f for f in fam), "+".join(e[:5] for e in errs) if errs else "clean")
         case["nontrivial"] = nadds > 0
-        known = bool(why) and why.startswith(KNOWN_SIG_JSON)
-        case["sig"] = KNOWN_SIG_JSON if known else po
-        if why and not known and shrink_ok:
+        case["sig"] = po
+        if why and shrink_ok:
             # the property fails on the implementation: keep a minimised operation list for the replay file
             try:
                 base = plain(ops)
@@ -882,12 +878,12 @@ def make_case(ops, mode=None, shrink_ok=False):
 
 
 def monitor_all(ops, mode):
-    """first property violation (not of the known class) on any of the networks driven by `ops`"""
+    """first property violation on any of the networks driven by `ops`"""
     obs = run_impl(ops)
     for tag in sorted({split(o)[1].get("net", 0) for o in ops}) or [0]:
         po, pb = project(ops, obs, tag)
         r = monitor(dict(input=dict(ops=po, mode=mode), impl=pb))
-        if r and not r.startswith(KNOWN_SIG_JSON):
+        if r:
             return r
     return None
 
@@ -1135,8 +1131,8 @@ def monitor(case):
         where = "op %d %s: " % (step_no, k)
         if b["kind"] == "snapdeg":
             if ref.ever and not ref.live and k == "json":
-                return (KNOWN_SIG_JSON + ": " + where + "after to_json/from_json of a network whose constraints were all removed "
-                        "constraint_matrix has shape %s instead of (0, %d); constraints_as_df: %s" % (
+                return (where + "after to_json/from_json of a network whose constraints were all removed "
+                        "constraint_matrix has shape %s instead of (0, %d); constraints_as_df: %s (cf. corpus/C12)" % (
                             tuple(b.get("shape", [])), len(ref.stations), b["df_err"]))
             return where + "constraint_matrix is not 2-dimensional (shape %s)" % (tuple(b.get("shape", [])),)
         if k == "register":
@@ -1358,10 +1354,3 @@ def replay_known(entry):
         obs = run_impl(w["ops"])
         return monitor(dict(input=dict(ops=w["ops"], mode=inplace_mode()), impl=obs))
     return "not re-checked"
-
-
-# the _refuted theorem is compiled only while the open finding still reproduces on the tree under test
-try:
-    EXTRA_PROP_FILES = ["coq/Props/C12_findings.v"] if json_lossy() else []
-except Exception:  # noqa
-    EXTRA_PROP_FILES = []
